@@ -38,6 +38,13 @@ def list_witness(ck, tier):
             ck.oracle_fail("F46:witness-fails-but-not-listed", scn, "solveFailure", "listed in known_findings.json")
     elif recs[0]["outcome"] != "ok":
         ck.oracle_fail("internal-exception:" + str(recs[0]["exc"])[:80], scn, recs[0]["exc"], "SolveFailure or normal return")
+    # list scenarios (fixed-size and non-random lists: foreach with folded index conditions, sum, unique, membership) judged
+    # for this property: failure iff unsatisfiable, no other exception; what concerns the exposed list itself is C04's
+    import c04
+    n0 = len(ck.oracle_failures)
+    c04.run(ck, 2000 if tier == "thorough" else 80, 0.0)
+    own = ("list-constraint-violated", "list-access-paths", "edit-does-not", "fixed-size-list", "hard-constraint-violated")
+    ck.oracle_failures[n0:] = [f for f in ck.oracle_failures[n0:] if not f["signature"].startswith(own)]
 
 
 if __name__ == "__main__":
